@@ -22,29 +22,28 @@ import (
 	"verif/harness/fw"
 )
 
-func init() {
-	fw.Register(&fw.Spec{
-		ID:    "C15a",
-		Level: "exploration",
-		Rule: "case = one batch of 3-4 filter expressions drawn as STRINGS from the accepted grammar (nested &&, ||, juxtaposition, parentheses, bare / '..' / \"..\" keys, PRNG layout) over one universe of 2-10 keys, " +
-			"parsed by sqe.Parse, x 20 (quick) / 50 (thorough) key-to-block assignments over a segment of 1-200 blocks (index built per block from marshalled pbindex.Keys exactly like cache.Engine.EndOfStream; 1 in 4 additionally saved and re-loaded through index.File on a dstore). " +
-			"For every (expression, assignment): {b | KeysApply(expr, keys(b))} == RoaringBitmapsApply(expr, index).ToArray() == set computed by the harness' own evaluator on its own tree; evaluations are repeated and interleaved over the SAME bitmap map, whose serialized content must stay unchanged; " +
-			"BlockIndex.Skip / SkipFromKeys / ExcludesAllBlocks and the skipFromIndex decision with and without a pre-computed bitmap must equal !match. Every negated form (-x at a unary position) must be rejected by Parse, every generated positive expression accepted. " +
-			"non-trivial = expression with >=1 binary operator for which some assignment selects a non-empty proper subset of the segment; distinct by expression string",
-		Assumptions: []string{
-			"and binds tighter than or, juxtaposition means and (sqe/parser_test.go precedence_* rows); this is what the harness' own evaluator implements",
-			"bare keys never contain '&' or '|' and the words and/or/not are only written quoted (their bare meaning is not documented)",
-			"the skip decision of pipeline/exec.skipFromIndex (unexported) is re-stated with the exported BlockIndex methods: Precomputed() ? Skip(block) : SkipFromKeys(keys)",
-		},
-		Cases: func(tier, mode string) int {
-			if tier == "thorough" {
-				return 100000
-			}
-			return 2000
-		},
-		MinNontrivial: 500,
-		Run:           run,
-	})
+// Rule and Assumptions describe this half of C15 (the lead registers the combined Spec).
+const Rule = "case = one batch of 3-4 filter expressions drawn as STRINGS from the accepted grammar (nested &&, ||, juxtaposition, parentheses, bare / '..' / \"..\" keys, PRNG layout) over one universe of 2-10 keys, " +
+	"parsed by sqe.Parse, x 20 (quick) / 50 (thorough) key-to-block assignments over a segment of 1-200 blocks (index built per block from marshalled pbindex.Keys exactly like cache.Engine.EndOfStream; 1 in 4 additionally saved and re-loaded through index.File on a dstore). " +
+	"For every (expression, assignment): {b | KeysApply(expr, keys(b))} == RoaringBitmapsApply(expr, index).ToArray() == set computed by the harness' own evaluator on its own tree; evaluations are repeated and interleaved over the SAME bitmap map, whose serialized content must stay unchanged; " +
+	"BlockIndex.Skip / SkipFromKeys / ExcludesAllBlocks and the skipFromIndex decision with and without a pre-computed bitmap must equal !match. Every negated form (-x at a unary position) must be rejected by Parse, every generated positive expression accepted. " +
+	"non-trivial = expression with >=1 binary operator for which some assignment selects a non-empty proper subset of the segment; distinct by expression string"
+
+var Assumptions = []string{
+	"and binds tighter than or, juxtaposition means and (sqe/parser_test.go precedence_* rows); this is what the harness' own evaluator implements",
+	"bare keys never contain '&' or '|' and the words and/or/not are only written quoted (their bare meaning is not documented)",
+	"the skip decision of pipeline/exec.skipFromIndex (unexported) is re-stated with the exported BlockIndex methods: Precomputed() ? Skip(block) : SkipFromKeys(keys)",
+}
+
+// MinNontrivial is the number of distinct non-trivial cases a quick run observes comfortably.
+const MinNontrivial = 500
+
+// Cases is the number of cases of a tier; Run runs case c.Index in 0..Cases(tier)-1 (all random choices from c.R).
+func Cases(tier string) int {
+	if tier == "thorough" {
+		return 100000
+	}
+	return 2000
 }
 
 type parsedExpr struct {
@@ -237,7 +236,8 @@ func equalU64(a, b []uint64) bool {
 var applyBitmaps = sqe.RoaringBitmapsApply
 var applyKeys = sqe.KeysApply
 
-func run(c *fw.Case) {
+// Run runs one case: one expression batch.
+func Run(c *fw.Case) {
 	r := c.R
 	ctx := context.Background()
 	nAssign := 20
